@@ -84,17 +84,17 @@ fn cases_of(shapes: &[tree::Shape], full_upto: usize, seed: u64) -> Vec<Case> {
     for (i, s) in shapes.iter().enumerate() {
         if tree::count_entries(s) <= full_upto {
             for r in 0..4 {
-                v.push(Case { shape: s.clone(), name_rot: r, content_rot: r % 3 });
+                v.push(Case { shape: s.clone(), name_rot: r, content_rot: r });
             }
         } else {
             let r = ((i as u64 + seed) % 4) as usize;
-            v.push(Case { shape: s.clone(), name_rot: r, content_rot: r % 3 });
+            v.push(Case { shape: s.clone(), name_rot: r, content_rot: r });
         }
     }
     v
 }
 
-const INSTANCES: &str = "each shape is instantiated 4 times: name class i -> NAMES[(i+r) mod 4], NAMES = [a, b, 'é x', 200-char name], and file j (depth-first) gets content kind (j+r) mod 3 of {empty, short, 70 KiB}, r = 0..3 — every special name occurs in every class position and every file position sees every content kind";
+const INSTANCES: &str = "each shape is instantiated 4 times: name class i -> NAMES[(i+r) mod 4], NAMES = [a, b, 'é x', 200-char name], and file j (depth-first) gets content kind (j+r) mod 4 of {empty, short, 70 KiB compressible text, 70 KiB poorly compressible xorshift text (deflates to > 50 KiB)}, r = 0..3 — every special name occurs in every class position and every file position sees every content kind";
 
 fn run_sub(mut args: Args) -> SubResult {
     let c04 = args.subcheck == "c04_sources";
@@ -111,12 +111,12 @@ fn run_sub(mut args: Args) -> SubResult {
     let cases = cases_of(&shapes, full_upto, args.seed);
     res.bound = if c04 {
         format!(
-            "all {} canonical tree shapes with <= {max_entries} entries, depth <= 3, 4 name classes x extensions {{\"\",x,y}} (file `n` and directory `n` never coexist; `n.x` and `n/` do); {INSTANCES}. Per tree: FileSystem; Embedded via the real expand_dir; zip {{stored,deflated}} x {{dir members, none}} x {{plain, ./ (+ a `./` root member)}} x member orders (all permutations for <= 5 members, else sorted/reversed/dirs-last) in memory + 1 plain-writer archive in memory and file-backed; tar {{dir members, none}} x {{plain, ./}} x the same orders, GNU long-name members for every name > 100 bytes, in memory + 1 tar::Builder archive in memory and file-backed. Queries: every id of the tree, every proper prefix, \"\", 2 absent ids x extensions {{\"\",x,y}} x read/exists(File)/exists(Directory)/read_dir",
+            "all {} canonical tree shapes with <= {max_entries} entries, depth <= 3, 4 name classes x extensions {{\"\",x,y}} (file `n` and directory `n` never coexist; `n.x` and `n/` do); {INSTANCES}. Per tree: FileSystem; Embedded via the real expand_dir; zip {{stored,deflated}} x {{dir members, none}} x {{plain, ./ (+ a `./` root member)}} x member orders (all permutations for <= 5 members, else sorted/reversed/dirs-last) in memory + plain-writer archives (start_file + write) deflated in memory and, deflated and stored, file-backed (Zip::open); tar {{dir members, none}} x {{plain, ./}} x the same orders, GNU long-name members for every name > 100 bytes, in memory + 1 tar::Builder archive in memory and file-backed. Queries: every id of the tree, every proper prefix, \"\", 2 absent ids x extensions {{\"\",x,y}} x read/exists(File)/exists(Directory)/read_dir",
             shapes.len()
         )
     } else {
         format!(
-            "all {} canonical tree shapes with <= {max_entries} entries (same generator as c04_sources); {INSTANCES}. Per tree: FileSystem, Embedded (real expand_dir), zip and tar {{dir members, none}} x {{sorted, reversed}} in memory + file-backed; asset types with extension lists [x], [x,y] (string loader), [\"\"], [x,\"\"], [] each also as Arc<T>; every directory id incl. \"\", one absent id and every file id: load_dir, load_rec_dir, iter on an AssetCache (TXY also on a LocalAssetCache); iter_cached after pre-loading every subset of <= 3 ids of the sub-tree (fresh cache each: AssetCache for T, LocalAssetCache for Arc<T>); read_dir fault injected at every directory in turn (same cache kinds)",
+            "all {} canonical tree shapes with <= {max_entries} entries (same generator as c04_sources); {INSTANCES}. Per tree: FileSystem, Embedded (real expand_dir), zip and tar {{dir members, none}} x {{plain, ./ prefix}} x {{sorted, reversed}} in memory (zip: plain deflated, ./ stored) + file-backed; asset types with extension lists [x], [x,y] (string loader), [\"\"], [x,\"\"], [] each also as Arc<T>; every directory id incl. \"\", one absent id and every file id: load_dir, load_rec_dir, iter on an AssetCache (TXY also on a LocalAssetCache); iter_cached after pre-loading every subset of <= 3 ids of the sub-tree (fresh cache each: AssetCache for T, LocalAssetCache for Arc<T>); read_dir fault injected at every directory in turn (same cache kinds)",
             shapes.len()
         )
     };
